@@ -354,6 +354,7 @@ def _check_typevar_pairing(run: Run, m) -> None:
     run.floor("C08.R6", n_maps, 1, "type-variable substitution maps in get_inherited")
     _check_base_choice(run, m, ctx, gi)
     _check_non_generic_subclass(run, m)
+    _check_reparameterise(run, m)
 
 
 def _check_base_choice(run: Run, m, ctx, gi) -> None:
@@ -626,3 +627,26 @@ def _check_dict_attr_type(run: Run, ctx, tt) -> None:
             want = -1 if fwd else 0
             run.check(idx[2] == want, "C08.R8", va, stmt_of(node), "the value whose type is recorded is the last entry with the key", f"the type recorded for <dict literal>.name is that of match number {idx[2]} of the entries with that key: with a repeated key python selects the last entry, whose type may differ", "values[key_index[-1]]", show(t)[:200], key="type of the first of several equal dictionary keys")
     run.notes["dict_attr_type_selections"] = n
+
+
+def _check_reparameterise(run: Run, m) -> None:
+    """R11. t[x1, .., xn] takes one value per *free type variable* of t (t.__parameters__), in their order: resolving
+    the variables and subscripting with the results keeps the nesting of t. Subscripting with the resolved
+    *arguments* (get_args(t)) wraps one level too many: Iterable[Iterable[T]] becomes Iterable[Iterable[Iterable[Jet]]]."""
+    run.rule("C08.R11", "_resolve_type re-parameterises a generic alias with one resolved value per free type variable (t.__parameters__)")
+    rt = m.find_func("_resolve_type", in_module="func_adl.util_types")
+    ctx = TermCtx(m, max_depth=1, opaque={"_resolve_type"})
+    fa = ctx.analysis(rt)
+    tp = ("param", rt.pos_params[0])
+    n = 0
+    for node in own_nodes(rt):
+        if not (isinstance(node, ast.Subscript) and isinstance(node.ctx, ast.Load) and fa.cfg.has_node(node)):
+            continue
+        if strip_sites(fa.term_of(node.value)) != tp:
+            continue
+        n += 1
+        idx = strip_sites(fa.term_of(node.slice))
+        over_params = contains(idx, lambda q: q[0] == "comp" and any(contains(it, lambda z: (z[0] == "attr" and z[2] == "__parameters__") or (z[0] == "app" and z[1] == ("global", "builtins.getattr") and len(z[2]) >= 2 and z[2][1] == ("const", "__parameters__"))) for it, _c in q[3]))
+        over_args = contains(idx, lambda q: q[0] == "comp" and any(contains(it, lambda z: (z[0] == "app" and z[1][0] == "global" and z[1][1].endswith("get_args")) or (z[0] == "attr" and z[2] == "__args__")) for it, _c in q[3]))
+        run.check(over_params and not over_args, "C08.R11", rt, stmt_of(node), "the alias is subscripted with its resolved type variables", f"_resolve_type subscripts the generic alias with {show(idx)[:120]}: one entry per *argument* of t instead of one per free type variable - a nested annotation such as Iterable[Iterable[T]] gains a level, Dict[str, T] raises TypeError", "t[tuple(_resolve_type(p, parameters) for p in t.__parameters__)]", show(idx)[:300], key="alias re-parameterised with its arguments")
+    run.floor("C08.R11", n, 1, "re-parameterisations in _resolve_type")
